@@ -32,7 +32,8 @@ RULE = ('family = one database description (1-3 merged parts, 0-3 datasets of 0-
         'history).')
 PROBES = ['rejection_repeated_on_retry', 'duplicate_between_two_later_parts', 'two_database_objects_with_common_names', 'alias_only_in_later_part', 'extra_top_level_scalar_with_merge',
           'request_after_gc_rebuilt', 'identity_while_held', 'file_removed_after_load',
-          'unpickled_database_answered', 'invalid_description_rejected']
+          'unpickled_database_answered', 'invalid_description_rejected',
+          'files_rewritten_between_two_database_objects']
 BUDGET = {
     'quick': {'families': 10000, 'wall_cap': 420, 'shrink_s': 10},
     'thorough': {'families': 100000, 'wall_cap': 5400, 'shrink_s': 30},
@@ -149,7 +150,8 @@ def gen(rng, tier, index):
             else:
                 ops.append(['gc'])
         cases.append({'parts': parts, 'invalid': invalid, 'backend': backend, 'ops': ops,
-                      'two_dbs': rng.random() < 0.4})
+                      'two_dbs': rng.random() < 0.4,
+                      'reused_path': backend == 'json' and rng.random() < 0.3})
     return cases
 
 
@@ -232,6 +234,24 @@ def run(case):
             paths = []
             if case['backend'] == 'json':
                 tmp = tempfile.mkdtemp(prefix='c19_')
+                if case.get('reused_path'):
+                    # the same files held another description before, and a
+                    # database object built from that one is still around
+                    older = copy.deepcopy(parts)
+                    for p_ in older:
+                        for exs in p_['datasets'].values():
+                            for ex in exs.values():
+                                ex['v'] = ex['v'] + 5000
+                    for i, p_ in enumerate(older):
+                        with open(os.path.join(tmp, 'db%d.json' % i), 'w') as f:
+                            json.dump(p_, f)
+                    try:
+                        pre_db = ldb.JsonDatabase(*[os.path.join(tmp, 'db%d.json' % i)
+                                                    for i in range(len(older))])
+                        pre_db.data
+                        probes['files_rewritten_between_two_database_objects'] = 1
+                    except Exception:
+                        pre_db = None
                 for i, p in enumerate(src):
                     path = os.path.join(tmp, 'db%d.json' % i)
                     with open(path, 'w') as f:
